@@ -177,6 +177,8 @@ def run(ctx):
             if n == 0:
                 common.log("C02: difference did not reproduce (harness bug?): %s" % key)
                 raise SystemExit(2)
+            if 0 < n < 10 and int(cfg[1]) > 1:   # intermittent and only with parallel execution: the one OS-schedule-dependence class
+                key = "outcome differs intermittently from raw/1/futex, only with nthreads>1 (OS-schedule dependent)"
             vio.append(common.Violation(key, "alone, 10 runs under %s: %d differ from raw/1/futex (%s)" % (
                 name_of(cfg), n, "always" if n == 10 else "intermittently"), {"case": culprit, "cfg": list(cfg), "program": build_prog(culprit)}))
         else:
@@ -191,6 +193,8 @@ def run(ctx):
             if n == 0:
                 common.log("C02: difference did not reproduce in 40 runs (harness bug?): %s" % key)
                 raise SystemExit(2)
+            if 0 < n < 40 and int(cfg[1]) > 1:
+                key = "outcome differs intermittently from raw/1/futex, only with nthreads>1 (OS-schedule dependent)"
             vio.append(common.Violation(key, "the pack of %d programs, 40 runs under %s: %d differ from raw/1/futex (%s)" % (
                 len(packcases), name_of(cfg), n, "always" if n == 40 else "intermittently"),
                 {"case": packcases[0], "cfg": list(cfg), "pack": packcases, "diff": diff_of(base_o[0], out_o[0])}))
